@@ -149,6 +149,9 @@ def check_storey_data(ctx, prog, rule="c03.storey"):
 def run(ctx):
     prog = ctx.prog
     check_storey_data(ctx, prog)
+    # the tilt an element gets when the file gives none decides which way its polygon is turned (shared with C18)
+    from .c18 import check_default_tilt
+    check_default_tilt(ctx, prog, rule="c03.default")
     from ._c03geom import check_wall, check_shades
     check_wall(ctx, prog)
     check_shades(ctx, prog)
